@@ -42,7 +42,7 @@ def flatten(entry, groups):
     return [entry]
 
 
-def make_req(top, allow_failure=None, ident=("a.example", "http-01"), hook_extra=None, attempts=2, env=True, acct_hooks=("h3",)):
+def make_req(top, allow_failure=None, ident=("a.example", "http-01"), hook_extra=None, attempts=2, env=True, acct_hooks=("h3",), acct_change=False):
     used_groups = {}
 
     def need(e):
@@ -69,13 +69,21 @@ def make_req(top, allow_failure=None, ident=("a.example", "http-01"), hook_extra
         doc["certificate"][0]["env"] = {"V_ALL": "cert", "V_GCD": "cert", "V_CD": "cert"}
     if not doc["group"]:
         del doc["group"]
-    req = cfg.scenario(doc, cas=[{"cert_lifetime_s": 10 * 86400}], phases=[{"attempts": attempts}])
+    phases = [{"attempts": attempts}]
+    if acct_change:
+        # second phase: the contacts changed, so the account is updated and its file rewritten (edit hooks of the account)
+        import copy
+        doc2 = copy.deepcopy(doc)
+        doc2["account"][0]["contacts"] = [{"mailto": "changed@example.org"}]
+        phases = [{"attempts": 1}, {"attempts": 1, "files": {"main.toml": cfg.to_toml(doc2)}}]
+        attempts = 2
+    req = cfg.scenario(doc, cas=[{"cert_lifetime_s": 10 * 86400}], phases=phases)
     if env:
         req["env"] = {v: "daemon" for v in ENV_VARS}
     flat = flatten_list(top)
     aflat = flatten_list(acct_hooks)
     req["meta"] = {"top": list(top), "flat": flat, "acct_flat": aflat, "allow_failure": allow_failure, "ident": list(ident), "attempts": attempts,
-                   "env": env, "hook_extra": hook_extra or {}}
+                   "env": env, "hook_extra": hook_extra or {}, "acct_edit_attempts": [1] if acct_change else []}
     return req
 
 
@@ -115,6 +123,8 @@ def predict(meta, fail_ordinals):
         ok = True
         if not state["registered"]:
             state["registered"] = True
+            ok = write_file(aflat, "acct_file")
+        elif att in meta.get("acct_edit_attempts", []):
             ok = write_file(aflat, "acct_file")
         if ok:
             ok = run_event(flat, "challenge-" + ctype, "chal")
@@ -278,6 +288,10 @@ def run(ctx):
     r["collect"] = ["out-*.txt", "err-*.txt"]
     r["meta"]["expect_files"] = {"out-a.example-false.txt": "out:h2", "out-a.example-true.txt": "out:h2", "err-http-01.txt": "err:h2"}
     extra.append(r)
+    # account file edit: the account's own hook list, with groups, multi-typed hooks and failures
+    for ah in (("h3",), ("h4", "h7"), ("g2",), ("h7", "h3")):
+        for af in (None, True):
+            extra.append(make_req(["h0", "h5"], allow_failure=af, acct_hooks=ah, acct_change=True))
     # overlap probe: hold every hook reply for a few ms so that concurrently started hooks would collide on the lock
     r = make_req(["h0", "h2", "g1", "h3"], attempts=1)
     r["hook_hold_ms"] = 6
